@@ -172,6 +172,20 @@ pub proof fn lemma_skippable_run_blank(b: Seq<u8>, p: int, q: int)
 pub proof fn axiom_str_len_isize(s: &str)
     ensures s.spec_bytes().len() <= isize::MAX,
 {}
+/// ASSUMED std contract (core::str, `Index<Range<usize>>`), target of extraction rule R14: `&s[a..b]` does not panic
+/// when a <= b <= len and both ends are character boundaries (vstd's own precondition), and its bytes are bytes a..b of s
+/// (vstd leaves the result unconstrained). The body is the operation itself.
+#[verifier::external_body]
+pub fn str_slice<'a>(s: &'a str, a: usize, b: usize) -> (r: &'a str)
+    requires a <= b <= s.spec_bytes().len(), cb(s.spec_bytes(), a as int), cb(s.spec_bytes(), b as int),
+    ensures r.spec_bytes() == s.spec_bytes().subrange(a as int, b as int),
+{ &s[a..b] }
+/// ASSUMED std contract (core::str, `Index<RangeFrom<usize>>`), target of R14: `&s[a..]`
+#[verifier::external_body]
+pub fn str_slice_from<'a>(s: &'a str, a: usize) -> (r: &'a str)
+    requires a <= s.spec_bytes().len(), cb(s.spec_bytes(), a as int), cb(s.spec_bytes(), s.spec_bytes().len() as int),
+    ensures r.spec_bytes() == s.spec_bytes().subrange(a as int, s.spec_bytes().len() as int),
+{ &s[a..] }
 } // verus!
 verus! {
 // ------------------------------------------------------------------ assumed std contracts (DESIGN 3.3)
@@ -490,6 +504,26 @@ pub proof fn lemma_char_pos_mono(c: Seq<char>, i: int, j: int)
     if i < j {
         lemma_encode_nonempty(c.subrange(i, j));
     }
+}
+/// the bytes between two character positions are the encoding of the characters between them
+pub proof fn lemma_bytes_of_chars(c: Seq<char>, i: int, j: int)
+    requires 0 <= i <= j <= c.len(),
+    ensures encode_utf8(c).subrange(char_byte_pos(c, i), char_byte_pos(c, j)) == encode_utf8(c.subrange(i, j)),
+{
+    lemma_char_pos_mono(c, i, j);
+    assert(c.take(j) =~= c.take(i) + c.subrange(i, j));
+    encode_utf8_concat(c.take(i), c.subrange(i, j));
+    assert(c =~= c.take(j) + c.subrange(j, c.len() as int));
+    encode_utf8_concat(c.take(j), c.subrange(j, c.len() as int));
+    assert(encode_utf8(c).subrange(char_byte_pos(c, i), char_byte_pos(c, j)) =~= encode_utf8(c.subrange(i, j)));
+}
+/// UTF-8 encoding is injective (vstd: decode_utf8 inverts encode_utf8)
+pub proof fn lemma_encode_inj(x: Seq<char>, y: Seq<char>)
+    requires encode_utf8(x) == encode_utf8(y),
+    ensures x == y,
+{
+    encode_utf8_decode_utf8(x);
+    encode_utf8_decode_utf8(y);
 }
 /// every character encodes to at least one byte
 pub proof fn lemma_chars_le_bytes(cs: Seq<char>, n: int)
